@@ -34,6 +34,7 @@ func init() {
 			{ID: "C10-R10", Title: "recover() is called by the deferred function itself (a panicking spawned call becomes the thread's error)", Floor: 3, Run: recoverIsDirectlyDeferred},
 			{ID: "C10-R11", Title: "the thread's call returns the spawned callable's result untouched", Floor: 1, Run: spawnedResultPassesThrough},
 			{ID: "C10-R12", Title: "compiled statements, send and receive included, meet their stack contract: a long-running sender does not exhaust the stack (shared with C04-R2)", Floor: 35, Run: c04r2},
+			{ID: "C10-R13", Title: "the state of an iteration is per consumer (Iter returns a new iterator)", Floor: 5, Run: iterationStateIsPerConsumer},
 		},
 	})
 }
